@@ -39,7 +39,7 @@ bool InstrumentMetaDataValidator::ValidateName(nostd::string_view name) const
 {
 
 #if OPENTELEMETRY_HAVE_WORKING_REGEX
-  return std::regex_match(name.data(), name_reg_key_);
+  return std::regex_match(name.begin(), name.end(), name_reg_key_);
 #else
   const size_t kMaxSize = 255;
   // size atmost 255 chars
@@ -63,7 +63,7 @@ bool InstrumentMetaDataValidator::ValidateName(nostd::string_view name) const
 bool InstrumentMetaDataValidator::ValidateUnit(nostd::string_view unit) const
 {
 #if OPENTELEMETRY_HAVE_WORKING_REGEX
-  return std::regex_match(unit.data(), unit_reg_key_);
+  return std::regex_match(unit.begin(), unit.end(), unit_reg_key_);
 #else
   const size_t kMaxSize = 63;
   // length atmost 63 chars
